@@ -120,12 +120,12 @@ def ce_compile(env, kcfg, cases, tag):
         return None, r.stdout[-2000:]
     # the reason clang/gcc give for a rejection is on the following note/error lines; keep a little context
     return out, r.stdout
-def ce_engine(env):
+def ce_engine(env, gen='c08', clause='C08.diff', cid='C08.ce'):
     prop, tier, seed = env['prop'], env['tier'], env['seed']
-    n = 3000 if tier == 'quick' else 40000
+    n = 4000 if tier == 'quick' else 40000
     sos = [env['paths'][k] for k in sorted(env['paths']) if not k.startswith('S-')]
     casefile = os.path.join(env['work'], 'ce_cases.txt')
-    r = subprocess.run([env['exe'], 'emit', 'C08.diff', '--seed', str(seed), '--n', str(n * 2), '--out', casefile] + sos, stdout=subprocess.PIPE, stderr=subprocess.PIPE, text=True)
+    r = subprocess.run([env['exe'], 'emit', clause, '--gen', gen, '--seed', str(seed), '--n', str(n * 2), '--out', casefile] + sos, stdout=subprocess.PIPE, stderr=subprocess.PIPE, text=True)
     res = dict(violations=[], errors=[], known_hits={})
     if r.returncode != 0: res['errors'].append('emit failed: ' + r.stderr[-500:]); return res
     stats = json.loads(r.stdout.strip().splitlines()[-1])
@@ -134,7 +134,7 @@ def ce_engine(env):
         p = l.split();
         if len(p) == 5: cases.append((p[0], int(p[1]), int(p[2]), int(p[3]), int(p[4])))
     cases = cases[:n]
-    known = [e for e in env['known'] if e.get('status') == 'known' and e['property'] == prop and e.get('clause') == 'C08.ce']
+    known = [e for e in env['known'] if e.get('status') == 'known' and e['property'] == prop and e.get('clause') == cid]
     def is_known(case, kname):
         for e in known:
             m = e['match']
@@ -168,14 +168,15 @@ def ce_engine(env):
     for n_, (key, i, lst) in sorted(by_entry.items(), key=lambda kv: kv[1][0])[:3]:
         kname, kind, msg = lst[0]
         what = ('%s(%d,%d,%d) returns %d at run time but is %s in a constant expression on %s: %s' % (cases[i][0], cases[i][1], cases[i][2], cases[i][3], cases[i][4], 'not accepted' if kind == 'rejected' else 'evaluated to a different value', ', '.join(k for k, _, _ in lst), msg))
-        res['violations'].append(dict(property=prop, kind='ce', clause='C08.ce', entry=cases[i][0], args=list(cases[i][1:4]), expected=cases[i][4], cfg=kname, kconfigs=[k for k, _, _ in lst], what=what, tier=tier, seed=seed, failing_entries=sorted(by_entry)))
+        res['violations'].append(dict(property=prop, kind='ce', clause=cid, entry=cases[i][0], args=list(cases[i][1:4]), expected=cases[i][4], cfg=kname, kconfigs=[k for k, _, _ in lst], what=what, tier=tier, seed=seed, failing_entries=sorted(by_entry)))
     nt = set(c for c in cases if max(abs(c[1]), abs(c[2]), abs(c[3])) >= 2**30)
-    res['evidence'] = dict(id='C08.ce', engine='generated constant-evaluation programs', evaluations=len(cases), executions=len(cases) * len(K_CONFIGS), distinct_nontrivial=len(nt), exhaustive=False, excluded_known=excluded,
-        rule='cases drawn by the C08.diff generator for every entry point expected to be usable in a constant expression (all but the compiled table functions and detail::sqrt_std_math), restricted to cases on which all run-time builds agree; each case becomes `static_assert(ce_<entry>(a,b,c) == <run-time value>)` in a generated translation unit compiled with GCC and Clang in c++17+abacus, c++20 and c++2b; a rejected (not a constant expression) or mismatching assertion is a violation; non-trivial = an argument with |value| >= 2^30',
+    res['evidence'] = dict(id=cid, engine='generated constant-evaluation programs', evaluations=len(cases), executions=len(cases) * len(K_CONFIGS), distinct_nontrivial=len(nt), exhaustive=False, excluded_known=excluded,
+        rule=('cases drawn by the C07 generator (arguments incl. +-NaN, the band next to +-MAXF, full-range integers, negative shift counts): the constant evaluators of GCC and Clang must reject undefined behaviour, so a case that returns normally at run time but is rejected at compile time is an independent witness of UB (or of a non-constexpr path); ' if gen == 'c07' else '') + 'cases drawn by the C08.diff generator for every entry point expected to be usable in a constant expression (all but the compiled table functions and detail::sqrt_std_math), restricted to cases on which all run-time builds agree; each case becomes `static_assert(ce_<entry>(a,b,c) == <run-time value>)` in a generated translation unit compiled with GCC and Clang in c++17+abacus, c++20 and c++2b; a rejected (not a constant expression) or mismatching assertion is a violation; non-trivial = an argument with |value| >= 2^30',
         accepted_per_configuration=per_cfg, emit_stats=stats,
         samples=[dict(entry=c[0], args=list(c[1:4]), runtime_value=c[4]) for c in (list(nt)[:3] + cases[:3])])
     return res
 CHECKS['C08']['extra'] = [ce_engine]
+CHECKS['C07'].setdefault('extra', []).append(lambda env: ce_engine(env, gen='c07', clause='C07.entry', cid='C07.ce'))
 
 # ----------------------------------------------------------------------------- engine E3: libFuzzer
 import glob, shutil, time
